@@ -39,6 +39,8 @@ def check(ctx):
     checkpoints(ctx, prog)
     repair(ctx, prog, ev)
     layout(ctx, prog, ev)
+    if ctx.pid == "C07":
+        exactness(ctx, prog)
 
 
 def store(ctx, prog, hier):
@@ -283,7 +285,7 @@ def checkpoints(ctx, prog):
         ctx.ob("C07-D3/DEP", ok, ec.site(c), "the only other store is zero padding below the last checkpoint (reconciled by get_all_missing_headers)", func=ec.fi.qualname)
     gm = ctx.fa(f"{H}.get_all_missing_headers")
     t = unparse(gm.node)
-    ok = "if self.chunk_hash(chunk_height, 1000) != expected_hash" in t and "self.known_missing_checkpointed_chunks.add(chunk_height)" in t
+    ok = any(R.same_test(i.test, "self.chunk_hash(chunk_height, 1000) != expected_hash") for i in gm.stmts(ast.If)) and "self.known_missing_checkpointed_chunks.add(chunk_height)" in t
     ctx.ob("C07-D3/GATE", ok, gm.site(), "checkpointed chunks whose stored bytes do not hash to the checkpoint are marked missing", func=gm.fi.qualname)
 
 
@@ -322,7 +324,8 @@ def repair(ctx, prog, ev):
         rd = [s for s in lp.body if isinstance(s, ast.Assign) and unparse(s.value) == f"self._read({dotted(lp.target)}, batch_size)"]
         ctx.ob("C07-D4/UNIT", len(rd) == 1, rf.site(lp), "each step reads exactly one batch at its height", func=rq)
     t = unparse(rf.node)
-    ok = "if header['prev_block_hash'] != previous_header_hash" in t and "previous_header_hash = header_hash" in t and "if header_hash != self.genesis_hash" in t
+    ok = any(R.same_test(i.test, "header['prev_block_hash'] != previous_header_hash") for i in rf.stmts(ast.If)) and "previous_header_hash = header_hash" in t and \
+        any(R.same_test(i.test, "header_hash != self.genesis_hash") for i in rf.stmts(ast.If))
     ctx.ob("C07-D4/GATE", ok, rf.site(), "each header's prev hash is compared with the hash of the header before it (genesis against the genesis hash)", func=rq)
     sk = [c for c in rf.calls(dotted_name="self.io.seek") if R.stmt_of(c) and rf.guarded(c, "fail")[0]]
     tr = rf.calls(dotted_name="self.io.truncate")
@@ -361,3 +364,157 @@ def layout(ctx, prog, ev):
             "'prev_block_hash': hexlify(header[4:36][::-1])", "'merkle_root': hexlify(header[36:68][::-1])", "'claim_trie_root': hexlify(header[68:100][::-1])"]
     miss = [n for n in need if n not in td]
     ctx.ob("C07-D5/SYM", not miss, de.site(), "reader: slices [:4] [4:36] [36:68] [68:100] [100:112] in the writer's order, same reversal", detail=str(miss), func=de.fi.qualname)
+
+
+def exactness(ctx, prog):
+    """the completeness half (a fully valid batch is stored whole; repair drops no more than it must) and the start values / conditions
+    the ordering rules above take for granted"""
+    # --- retarget: which headers feed the rule
+    nb = ctx.fa(f"{H}.get_next_block_target")
+    q = nb.fi.qualname
+    _, mt, prev, cur = nb.fi.params()
+    for r in nb.stmts(ast.Return):
+        if dotted(r.value) == mt:
+            R.exact_gate(ctx, "C07-D2/SPEC", nb, r, f"{prev} is None and {cur} is None", "max_target is returned exactly when there is no previous header at all (the first block)",
+                         key=f"C07-D2/SPEC|{q}|first-exact")
+    for x in nb.stmts(ast.Assign):
+        if norm_text(x) == f"{prev} = {cur}":
+            R.exact_gate(ctx, "C07-D2/SPEC", nb, x, f"{prev} is None and {cur} is not None", "the second block is retargeted against itself (no header two back) — exactly then",
+                         key=f"C07-D2/SPEC|{q}|second-exact")
+    p = nb.path([nb.cfg.entry], [nb.cfg.exit], avoid=lambda n: n.kind == "return", include_exc=False)
+    ctx.ob("C07-D2/SPEC", p is None, nb.site(), "every path of the retarget rule returns a target", func=q)
+    # --- validate_chunk: chain context
+    vc = ctx.fa(f"{H}.validate_chunk")
+    q = vc.fi.qualname
+    h = vc.fi.params()[1]
+    for x in vc.stmts(ast.Assign):
+        t = norm_text(x)
+        if t.startswith("previous_header = self.deserialize(") or t.startswith("previous_hash = self.hash_header("):
+            R.exact_gate(ctx, "C07-D2/GATE", vc, x, f"{h} > 0", "the previous header and its hash are read for every height above 0", key=f"C07-D2/GATE|{q}|prev-exact|{t[:20]}")
+        elif t.startswith("previous_previous_header = await self.get("):
+            R.exact_gate(ctx, "C07-D2/GATE", vc, x, f"{h} > 1", "the header two back is read for every height above 1 (at height 1 the rule uses the previous header twice)",
+                         ignore=[f"{h} > 0"], key=f"C07-D2/GATE|{q}|prevprev-exact")
+    ini = [x for x in vc.stmts(ast.Assign) if isinstance(x.targets[0], ast.Tuple) and {dotted(e) for e in x.targets[0].elts} == {"previous_hash", "previous_header", "previous_previous_header"}]
+    ok = len(ini) == 1 and isinstance(ini[0].value, ast.Tuple) and all(is_const(e, None) for e in ini[0].value.elts)
+    ctx.ob("C07-D2/DEP", ok, vc.site(), "without stored predecessors the context starts as None (genesis)", func=q)
+    # --- connect: a valid batch is stored whole
+    cn = ctx.fa(f"{H}.connect")
+    q = cn.fi.qualname
+    ini = {}
+    for x in cn.node.body:
+        if isinstance(x, ast.Assign) and len(x.targets) == 1 and isinstance(x.value, ast.Constant):
+            ini.setdefault(dotted(x.targets[0]), x)
+    ok = "added" in ini and is_const(ini["added"].value, 0) and "bail" in ini and is_const(ini["bail"].value, False)
+    ctx.ob("C07-D1/DEP", ok, cn.site(), "connect starts with nothing added and no invalid header seen", func=q, key=f"C07-D1/DEP|{q}|init")
+    for c in cn.calls(dotted_name="self._write"):
+        R.exact_gate(ctx, "C07-D1/GATE", cn, c, "chunk", "every validated, non-empty chunk is written — under no further condition (a fully valid batch is stored whole)",
+                     key=f"C07-D1/GATE|{q}|write-exact")
+        st = R.stmt_of(c)
+        ok = isinstance(st, ast.AugAssign) and dotted(st.target) == "added" and isinstance(st.op, ast.Add) and st.value is c
+        ctx.ob("C07-D1/DEP", ok, cn.site(c), "the number of headers written is added up", func=q)
+    for b in cn.stmts(ast.Break):
+        R.exact_gate(ctx, "C07-D1/GATE", cn, b, "bail", "the batch is abandoned exactly after an invalid header", ignore=["chunk", "not chunk"], key=f"C07-D1/GATE|{q}|break-exact")
+    r = R.single_return_value(cn)
+    ctx.ob("C07-D1/DEP", r is not None and dotted(r.value) == "added", cn.site(), "connect returns that count", func=q)
+    sets = [x for x in cn.stmts(ast.Assign) if any(dotted(t) == "bail" for t in x.targets) and is_const(x.value, True)]
+    ok = len(sets) == 1 and R.in_handler(sets[0], cn) is not None
+    ctx.ob("C07-D1/DEP", ok, cn.site(), "`bail` is raised only by the InvalidHeader handler", func=q)
+    wr = ctx.fa(f"{H}._write")
+    q = wr.fi.qualname
+    t = R.top_level_texts(wr)
+    hh, vch = wr.fi.params()[1:3]
+    want = [f"self.io.seek({hh} * self.header_size, os.SEEK_SET)", f"written = self.io.write({vch}) // self.header_size", "self.io.flush()", "return written"]
+    ok = [x for x in t if x in want] == want
+    ctx.ob("C07-D1/DEP", ok, wr.site(), "_write seeks to the height, writes the chunk, flushes, and reports whole headers written — unconditionally, in that order", detail="" if ok else str(t),
+           func=q, key=f"C07-D1/DEP|{q}|sequence")
+    # --- repair
+    rp = ctx.fa(f"{H}.repair")
+    q = rp.fi.qualname
+    fails = [x for x in rp.stmts(ast.Assign) if any(dotted(tg) == "fail" for tg in x.targets) and is_const(x.value, True)]
+    ctx.floor("C07-D4/GATE", "`fail = True` in repair", len(fails), 2, site=rp.site(), func=q)
+    seen = set()
+    for x in fails:
+        link = rp.guarded(x, "previous_header_hash")[0]
+        seen.add(link)
+        if link:
+            R.exact_gate(ctx, "C07-D4/GATE", rp, x, "previous_header_hash and header['prev_block_hash'] != previous_header_hash",
+                         "a header fails exactly when its prev hash differs from the hash of the header before it", key=f"C07-D4/GATE|{q}|fail-link")
+        else:
+            R.exact_gate(ctx, "C07-D4/GATE", rp, x, "not previous_header_hash and height == 0 and header_hash != self.genesis_hash",
+                         "the first header fails exactly when it is at height 0 and is not the genesis block", key=f"C07-D4/GATE|{q}|fail-genesis")
+    ctx.ob("C07-D4/GATE", seen == {True, False}, rp.site(), "both failure tests (link, genesis) are present", func=q)
+    for c in rp.calls(dotted_name="self.io.truncate"):
+        R.exact_gate(ctx, "C07-D4/GATE", rp, c, "fail", "the file is truncated exactly when a header failed (an intact file loses nothing)", key=f"C07-D4/GATE|{q}|truncate-exact")
+    ok = any(norm_text(f.iter) == "self._iterate_headers(height, headers)" and norm_text(f.target) == "(header_hash, header)" for f in rp.stmts(ast.For))
+    ctx.ob("C07-D4/DEP", ok, rp.site(), "the batch read at `height` is iterated from that height", func=q)
+    carry = [x for x in rp.stmts(ast.Assign) if norm_text(x) == "previous_header_hash = header_hash"]
+    ok = len(carry) == 1
+    ctx.ob("C07-D4/DEP", ok, rp.site(), "the hash of each intact header is carried to the next comparison", func=q)
+    for x in carry:
+        R.exact_gate(ctx, "C07-D4/GATE", rp, x, "not fail", "…for every header that did not fail", key=f"C07-D4/GATE|{q}|carry-exact")
+    ini = [x for x in rp.stmts(ast.Assign) if {dotted(tg) for tg in x.targets} == {"previous_header_hash", "fail"}]
+    ctx.ob("C07-D4/DEP", len(ini) == 1 and is_const(ini[0].value, None), rp.site(), "repair starts with no carried hash and no failure", func=q)
+    cut = [x for x in rp.stmts(ast.Assign) if any(dotted(tg) == "headers" for tg in x.targets) and isinstance(x.value, ast.Subscript)]
+    ok = len(cut) == 1 and norm_text(cut[0].value) == "headers[:len(headers) // self.header_size * self.header_size]"
+    ctx.ob("C07-D4/UNIT", ok, rp.site(), "a batch that ends inside a header is cut back to whole headers (floor division, then multiplication, by the header size)", func=q,
+           key=f"C07-D4/UNIT|{q}|whole-headers")
+    for x in cut:
+        R.exact_gate(ctx, "C07-D4/GATE", rp, x, "len(headers) % self.header_size != 0", "…exactly when it does", key=f"C07-D4/GATE|{q}|cut-exact")
+    hs = [x for x in rp.stmts(ast.Assign) if norm_text(x) == "height = header['block_height']"]
+    ctx.ob("C07-D4/DEP", len(hs) == 1, rp.site(), "the height used for truncation is the height of the header being compared", func=q)
+    # --- open
+    op = ctx.fa(f"{H}.open")
+    q = op.fi.qualname
+    reps = op.calls(dotted_name="self.repair")
+    for c in reps:
+        full = not c.args and not c.keywords
+        R.exact_gate(ctx, "C07-D4/GATE", op, c, "bytes_size % self.header_size" if full else "not bytes_size % self.header_size",
+                     "a file cut inside a header is scanned from the start" if full else "a file of whole headers is scanned above the last checkpoint",
+                     ignore=["self.path != ':memory:'", "self.path == ':memory:'"], key=f"C07-D4/GATE|{q}|repair-{'full' if full else 'tip'}")
+        if not full:
+            ok = norm_text(c) == "self.repair(start_height=max_checkpointed_height)" and \
+                [norm_text(x.value) for x in op.stmts(ast.Assign) if any(dotted(tg) == "max_checkpointed_height" for tg in x.targets)] == ["max(self.checkpoints.keys() or [-1]) + 1000"]
+            ctx.ob("C07-D4/UNIT", ok, op.site(c), "…that is from (highest checkpoint + 1000), the first height no checkpoint covers", func=q, key=f"C07-D4/UNIT|{q}|tip-start")
+    ctx.floor("C07-D4/GATE", "repair calls in open", len(reps), 2, site=op.site(), func=q)
+    t = [norm_text(x) for x in op.node.body]
+    ok = "await self.ensure_checkpointed_size()" in t and "await self.get_all_missing_headers()" in t and "self.io = BytesIO()" in t and \
+        "bytes_size = self.io.seek(0, os.SEEK_END)" in t and "self._size = bytes_size // self.header_size" in t
+    ctx.ob("C07-D4/ORDER", ok, op.site(), "open starts from an empty buffer, measures what was loaded and finally marks checkpointed chunks whose stored bytes do not match", func=q,
+           key=f"C07-D4/ORDER|{q}|skeleton")
+    rd = ctx.fa(f"{H}.open.<locals>._readit")
+    t = [norm_text(x) for x in ast.walk(rd.node) if isinstance(x, ast.Expr)]
+    ok = "self.io.seek(0)" in t and "self.io.write(header_file.read())" in t and any(isinstance(w, ast.With) and norm_text(w.items[0].context_expr) == "open(self.path, 'r+b')" for w in rd.stmts(ast.With))
+    ctx.ob("C07-D4/DEP", ok, rd.site(), "the whole header file is loaded at offset 0", func=rd.fi.qualname)
+    ok = any(norm_text(c) == "asyncio.get_event_loop().run_in_executor(None, _readit)" and isinstance(c._parent, ast.Await) for c in op.calls(name="run_in_executor"))
+    ctx.ob("C07-D4/DEP", ok, op.site(), "…and awaited before anything is measured", func=q)
+    # --- checkpoints bookkeeping
+    fc = ctx.fa(f"{H}.fetch_chunk")
+    q = fc.fi.qualname
+    for c in fc.calls(dotted_name="self.known_missing_checkpointed_chunks.remove"):
+        R.exact_gate(ctx, "C07-D3/GATE", fc, c, "self.checkpoints.get(start) == chunk_hash and start in self.known_missing_checkpointed_chunks",
+                     "a chunk stops being 'missing' exactly when a matching chunk was stored", key=f"C07-D3/GATE|{q}|unmiss")
+    ctx.floor("C07-D3/GATE", "known_missing_checkpointed_chunks.remove in fetch_chunk", len(fc.calls(dotted_name="self.known_missing_checkpointed_chunks.remove")), 1, site=fc.site(), func=q)
+    for r in fc.stmts(ast.Return):
+        if not fc.guarded(r, "self.checkpoints.get(start) == chunk_hash")[0]:
+            R.exact_gate(ctx, "C07-D3/GATE", fc, r, "not self.checkpoints.get(start) == chunk_hash and start not in self.checkpoints",
+                         "a chunk is silently ignored only when no checkpoint covers it", key=f"C07-D3/GATE|{q}|ignore-exact")
+    gm = ctx.fa(f"{H}.get_all_missing_headers")
+    q = gm.fi.qualname
+    for c in gm.calls(dotted_name="self.known_missing_checkpointed_chunks.add"):
+        R.exact_gate(ctx, "C07-D3/GATE", gm, c, "chunk_height not in self.known_missing_checkpointed_chunks and self.chunk_hash(chunk_height, 1000) != expected_hash",
+                     "a checkpointed chunk is marked missing exactly when its stored bytes do not hash to the checkpoint", key=f"C07-D3/GATE|{q}|mark-exact")
+        ok = len(c.args) == 1 and dotted(c.args[0]) == "chunk_height"
+        ctx.ob("C07-D3/DEP", ok, gm.site(c), "…under its own height", func=q)
+    lp = gm.stmts(ast.For)
+    ok = len(lp) == 1 and "self.checkpoints.items()" in norm_text(lp[0].iter) and norm_text(lp[0].target) == "(chunk_height, expected_hash)"
+    ctx.ob("C07-D3/DEP", ok, gm.site(), "every checkpoint is visited with its own expected hash", func=q)
+    ec = ctx.fa(f"{H}.ensure_checkpointed_size")
+    q = ec.fi.qualname
+    for c in ec.calls(dotted_name="self._write"):
+        R.exact_gate(ctx, "C07-D3/GATE", ec, c, "self.height < max_checkpointed_height", "zero padding is written only while the chain is shorter than the last checkpoint",
+                     key=f"C07-D3/GATE|{q}|pad-exact")
+    ok = [norm_text(x.value) for x in ec.stmts(ast.Assign) if any(dotted(tg) == "max_checkpointed_height" for tg in x.targets)] == ["max(self.checkpoints.keys() or [-1])"]
+    ctx.ob("C07-D3/DEP", ok, ec.site(), "…the highest checkpoint (−1 without checkpoints)", func=q)
+    ih = ctx.fa(f"{H}._iterate_headers")
+    ok = any(R.same_test(a.test, f"len({ih.fi.params()[2]}) % self.header_size == 0") for a in ih.stmts(ast.Assert))
+    ctx.ob("C07-D2/GATE", ok, ih.site(), "only whole headers are iterated (length asserted to be a multiple of the header size)", func=ih.fi.qualname)
